@@ -3675,7 +3675,7 @@ def from_array(
 
     if name in (None, True):
         token = tokenize(x, chunks, lock, asarray, fancy, getitem, inline_array)
-        name = name or f"array-{token}"
+        name = f"array-{token}"
     elif name is False:
         name = f"array-{uuid.uuid1()}"
 
